@@ -10,8 +10,8 @@ EXTENDS FermiScan
 CONSTANTS NK, NBS, EMAX, THS, QS, AS1, ASHIFT, DS, NS, SELS, WrongBinning,
           InsideMode     \* "outside": inputs with NoLevelInsideGroup (exact values are bound to the code); "inside": inputs where a level
                          \* lies inside a group (bound by the representation-free clauses only); "any": both
-VARIABLES E, vmode, th, kr, grid, fder, sel, kres, pc, ik, X, res, taken, inside, lowin
-vars == <<E, vmode, th, kr, grid, fder, sel, kres, pc, ik, X, res, taken, inside, lowin>>
+VARIABLES E, vmode, th, kr, grid, fder, sel, kres, pc, ik, X, res, taken, inside, lowin, farbelow
+vars == <<E, vmode, th, kr, grid, fder, sel, kres, pc, ik, X, res, taken, inside, lowin, farbelow>>
 
 SortedArrays(n) == {s \in [1..n -> 0..EMAX] : \A k \in 1..(n - 1) : s[k] <= s[k + 1]}
 Pow5(n) == LET P[j \in 0..n] == IF j = 0 THEN 1 ELSE 5 * P[j - 1] IN P[n]
@@ -44,6 +44,7 @@ Init == /\ \E nb \in NBS : E \in [1..NK -> SortedArrays(nb)]
         /\ inside = ~NoLevelInsideGroup
         /\ (InsideMode = "outside" => ~inside) /\ (InsideMode = "inside" => inside)
         /\ lowin = \E k \in 1..NK : LowestLevelInsideGroupK(E[k], th, kr, grid, fder)
+        /\ farbelow = \E k \in 1..NK : GroupMeanFarBelowLowestLevelK(E[k], th, kr, grid, fder)
         /\ pc = "acc" /\ ik = 1
         /\ X = [r \in 1..NKres |-> ZeroRow(grid, fder)]
         /\ res = <<>> /\ taken = {}
@@ -52,12 +53,12 @@ Accumulate == /\ pc = "acc" /\ ik <= NK
               /\ LET r == IF kres THEN ik ELSE 1 IN X' = [X EXCEPT ![r] = AccK(X[r], ik)]
               /\ taken' = taken \cup BranchesTaken(E[ik], th, kr, grid, fder, sel)
               /\ ik' = ik + 1 /\ pc' = (IF ik = NK THEN "diff" ELSE "acc")
-              /\ UNCHANGED <<E, vmode, th, kr, grid, fder, sel, kres, res, inside, lowin>>
+              /\ UNCHANGED <<E, vmode, th, kr, grid, fder, sel, kres, res, inside, lowin, farbelow>>
 (* finite differences, / nk *)
 Differences == /\ pc = "diff"
                /\ res' = [r \in 1..NKres |-> FinishRow(X[r], grid, fder, IF kres THEN 1 ELSE NK)]
                /\ pc' = "done"
-               /\ UNCHANGED <<E, vmode, th, kr, grid, fder, sel, kres, ik, X, taken, inside, lowin>>
+               /\ UNCHANGED <<E, vmode, th, kr, grid, fder, sel, kres, ik, X, taken, inside, lowin, farbelow>>
 Next == Accumulate \/ Differences
 Spec == Init /\ [][Next]_vars
 
